@@ -489,15 +489,76 @@ def sub_static(acc, shard, nshards, tier, seed):
     acc.exhaustive = True
 
 
+LEGACY_CONF = '''
+from sphinx.domains import Domain
+
+
+class LegacyDomain(Domain):
+    """A third-party domain that predates resolve_any_xref."""
+    name = "legacy"
+    label = "Legacy"
+
+    def resolve_xref(self, env, fromdocname, builder, typ, target, node, contnode):
+        return None
+
+
+def setup(app):
+    app.add_domain(LegacyDomain)
+'''
+
+
+def check_domains(acc, case) -> list[dict]:
+    """The catalogue entry that only a Sphinx project with a third-party domain can reach (myst.domains), and the
+    missing-reference warning next to it: tags inside the catalogue, suppression removes exactly what it names."""
+    mk = (acc or Acc(PROPERTY, "replay")).violation
+    S = list(case["suppress"])
+    files = {"index.md": "# Index\n\n[text](no-such-reference) and [](also-missing)\n\n~~strike~~\n"}
+    vs = []
+    try:
+        with front.sphinx_project(confoverrides={"suppress_warnings": S, "myst_enable_extensions": ["strikethrough"]}, files=files,
+                                  conf_text=LEGACY_CONF, buildername="text") as proj:
+            warn = proj.build()
+            lines = [ln.replace(proj.src, "<src>") for ln in front.warning_lines(warn)]
+    except Exception as exc:  # noqa: BLE001
+        return [mk(f"C14:render-raises:{type(exc).__name__}", case, "a build", f"{type(exc).__name__}: {exc}")]
+    tags = [line_tag(ln) for ln in lines]
+    for t in tags:
+        if t and t[0] == "myst" and t[1] not in catalogue():
+            vs.append(mk("C14:tag-outside-catalogue", case, sorted(catalogue()), f"myst.{t[1]}"))
+    want = {"myst.domains": 1, "myst.xref_missing": 2, "myst.strikethrough": 1}
+    for tag, n in want.items():
+        t = tuple(tag.split("."))
+        exp_n = 0 if matches(t, S) else n
+        got_n = sum(1 for x in tags if x == t)
+        if got_n != exp_n:
+            vs.append(mk("C14:suppression-changes-log:sphinx-domains" if S else "C14:trigger-without-its-tag:sphinx-domains", case,
+                         {tag: exp_n}, {"count": got_n, "log": lines[:8]}))
+    if acc is not None:
+        acc.case(("domains", tuple(S)), True, ["frontend:sphinx", "tag:myst.domains", f"suppress:{'none' if not S else 'some'}"],
+                 sample={"suppress": S, "log": lines[:6]})
+    return vs
+
+
+def sub_domains(acc, shard, nshards, tier, seed):
+    for i, S in enumerate(([], ["myst.domains"], ["myst.xref_missing"], ["myst"], ["myst.*"], ["myst.legacy_domain"], ["ref"],
+                           ["myst.domains", "myst.strikethrough"])):
+        if i % nshards != shard:
+            continue
+        _record(acc, check_domains(acc, {"suppress": S}))
+    acc.exhaustive = True
+
+
 def plan(tier):
     return [Sub("each", sub_each, 8), Sub("random", sub_random, 10), Sub("sphinx", sub_sphinx, 4 if tier == "quick" else 12),
-            Sub("static", sub_static, 1)]
+            Sub("static", sub_static, 1), Sub("domains", sub_domains, 2)]
 
 
 def replay(sub, input):
     case = dict(input)
     if sub == "sphinx":
         case["frontend"] = "sphinx"
+    if sub == "domains":
+        return check_domains(None, case)
     if sub == "static":
         acc = Acc(PROPERTY, sub)
         sub_static(acc, 0, 1, "quick", 1)
